@@ -93,10 +93,55 @@ Wrap(leaf, w) ==
     [] w = "allof_prop"  -> [allOf |-> << [type |-> "object", properties |-> [q |-> [type |-> "string"]]],
                                          [type |-> "object", required |-> <<"p">>, properties |-> [p |-> s]] >>]
 
+(***************************************************************************)
+(* Special definitions (C05 names them): property names that are not Go    *)
+(* identifiers, additionalProperties: true next to declared properties,    *)
+(* tuples, an alias of a formatted type, a discriminated base type with    *)
+(* two subtypes reached through a property and through an array.           *)
+(***************************************************************************)
+AnySchema == [x \in {} |-> 0]         \* the empty schema: additionalProperties: true
+WeirdProps == ("my-prop" :> [type |-> "string"]) @@ ("my prop" :> [type |-> "integer"]) @@ ("1st" :> [type |-> "boolean"])
+              @@ ("type" :> [type |-> "string"]) @@ ("a.b" :> [type |-> "integer"]) @@ ("Content-Type" :> [type |-> "string"])
+SpecialSchemas ==
+  [ sp_weirdnames |-> [type |-> "object", required |-> <<"my-prop">>, properties |-> WeirdProps],
+    sp_addl_true  |-> [type |-> "object", properties |-> [a |-> [type |-> "string"]], additionalProperties |-> AnySchema],
+    sp_tuple      |-> [type |-> "array", itemsTuple |-> <<[type |-> "string"], [type |-> "integer", minimum |-> 4]>>],
+    sp_tuple_prop |-> [type |-> "object", properties |-> [t |-> [type |-> "array", itemsTuple |-> <<[type |-> "integer"], [type |-> "string", maxLength |-> 2]>>]]],
+    sp_alias_uuid |-> [type |-> "string", format |-> "uuid"],
+    sp_alias_uuid_user |-> [type |-> "object", required |-> <<"id">>, properties |-> [id |-> [ref |-> "sp_alias_uuid"], ids |-> [type |-> "array", items |-> [ref |-> "sp_alias_uuid"]]]],
+    sp_pet        |-> [type |-> "object", discriminator |-> "kind", required |-> <<"kind", "name">>,
+                       properties |-> [kind |-> [type |-> "string"], name |-> [type |-> "string"]]],
+    sp_cat        |-> [allOf |-> <<[ref |-> "sp_pet"], [type |-> "object", properties |-> [claws |-> [type |-> "integer", minimum |-> 2]]]>>],
+    sp_dog        |-> [allOf |-> <<[ref |-> "sp_pet"], [type |-> "object", required |-> <<"bark">>, properties |-> [bark |-> [type |-> "string"]]]>>],
+    sp_zoo        |-> [type |-> "object", properties |-> [star |-> [ref |-> "sp_pet"], all |-> [type |-> "array", items |-> [ref |-> "sp_pet"]]]] ]
+SpecialNames == DOMAIN SpecialSchemas
+
+Cat(n, c)  == Obj([kind |-> Str("sp_cat"), name |-> Str(n), claws |-> Num(c)])
+Dog(n, b)  == Obj([kind |-> Str("sp_dog"), name |-> Str(n), bark |-> Str(b)])
+UUID == Str("a0eebc99-9c0b-4ef8-bb6d-6bb9bd380a11")
+SpecialInstances(name) ==
+  CASE name = "sp_weirdnames" ->
+         {Obj(("my-prop" :> Str("a"))), Obj(("my-prop" :> Str("a")) @@ ("my prop" :> Num(4)) @@ ("1st" :> Bool(TRUE)) @@ ("type" :> Str("ab")) @@ ("a.b" :> Num(2)) @@ ("Content-Type" :> Str("b"))),
+          Obj(("my prop" :> Num(4))), Obj(("my-prop" :> Num(2))), Obj(("my-prop" :> Str("")) @@ ("1st" :> Bool(FALSE)))}
+    [] name = "sp_addl_true" ->
+         {Obj(<<>>), Obj([a |-> Str("a")]), Obj([a |-> Str("a"), x |-> Num(4)]), Obj([x |-> Str("b"), y |-> Arr(<<Num(2)>>), z |-> Obj([k |-> Bool(TRUE)])]), Obj([a |-> Num(2)])}
+    [] name = "sp_tuple" ->
+         \* full tuples only: go-swagger documents tuples as partial (all declared positions are expected)
+         {Arr(<<Str("a"), Num(4)>>), Arr(<<Str("a"), Num(2)>>), Arr(<<Num(4), Str("a")>>), Arr(<<Str("b"), Num(12)>>)}
+    [] name = "sp_tuple_prop" ->
+         {Obj(<<>>), Obj([t |-> Arr(<<Num(4), Str("ab")>>)]), Obj([t |-> Arr(<<Num(4), Str("abc")>>)]), Obj([t |-> Arr(<<Str("a"), Str("a")>>)])}
+    [] name = "sp_alias_uuid" -> {UUID, Str("a"), Num(2)}
+    [] name = "sp_alias_uuid_user" -> {Obj([id |-> UUID]), Obj([id |-> UUID, ids |-> Arr(<<UUID, UUID>>)]), Obj([id |-> Str("a")]), Obj(<<>>), Obj([id |-> UUID, ids |-> Arr(<<Str("b")>>)])}
+    [] name = "sp_pet" -> {Cat("a", 4), Dog("b", "ab"), Obj([kind |-> Str("sp_cat")]), Obj([name |-> Str("a")])}
+    [] name = "sp_cat" -> {Cat("a", 4), Cat("a", 0), Obj([kind |-> Str("sp_cat"), name |-> Str("a")]), Obj([kind |-> Str("sp_cat"), name |-> Str("a"), claws |-> Str("x")])}
+    [] name = "sp_dog" -> {Dog("b", "ab"), Obj([kind |-> Str("sp_dog"), name |-> Str("b")])}
+    [] name = "sp_zoo" -> {Obj(<<>>), Obj([star |-> Cat("a", 4)]), Obj([star |-> Dog("b", "ab"), all |-> Arr(<<Cat("a", 4), Dog("c", "a")>>)]),
+                            Obj([all |-> Arr(<<>>)]), Obj([all |-> Arr(<<Cat("a", 6)>>)])}
+
 DefKeys == {<<l, w>> \in Leaves \X Wrappers : WrapOK(l, w)}
-DefNames == {DefName(k[1], k[2]) : k \in DefKeys}
+DefNames == {DefName(k[1], k[2]) : k \in DefKeys} \cup SpecialNames
 KeyOf(name) == CHOOSE k \in DefKeys : DefName(k[1], k[2]) = name
-DefSchema(name) == Wrap(KeyOf(name)[1], KeyOf(name)[2])
+DefSchema(name) == IF name \in SpecialNames THEN SpecialSchemas[name] ELSE Wrap(KeyOf(name)[1], KeyOf(name)[2])
 AllDefs == [n \in DefNames |-> DefSchema(n)]
 
 (***************************************************************************)
@@ -132,6 +177,7 @@ LeafVals(leaf) ==
 
 \* a value of the leaf that is valid (used as filler)
 Instances(name) ==
+  IF name \in SpecialNames THEN SpecialInstances(name) ELSE
   LET k == KeyOf(name)  leaf == k[1]  w == k[2]  vs == LeafVals(leaf) IN
   CASE w = "top"   -> vs
     [] w \in {"opt", "req", "ref_opt", "ref_req", "nullable", "req_ro", "req_default"} ->
